@@ -63,7 +63,7 @@ fn gen_line(rng: &mut Rng, t: &mut Track) -> String {
     let f = t.fresh;
     let wild = rng.chance(1, 25);
     loop {
-        let choice = rng.below(64);
+        let choice = rng.below(66);
         let line: String = match choice {
             0..=5 => {
                 if t.depth >= 5 && !wild {
@@ -93,7 +93,14 @@ fn gen_line(rng: &mut Rng, t: &mut Track) -> String {
             18..=19 => format!("{}\\toks{}={{t{f}\\ma #}}", global(rng), reg(rng)),
             20..=22 => format!("{}\\def{}{{m{f}}}", global(rng), mac(rng)),
             23 => format!("\\gdef{}#1#2{{<#1|#2|m{f}>}}", mac(rng)),
-            24 => format!("{}\\def{}#1.{{(#1:m{f})}}", global(rng), mac(rng)),
+            // delimited parameters: the delimiter is stored in the macro (a matcher over a non-empty vector of tokens) and
+            // has to come back from a checkpoint token for token, in order - also when it has three or more tokens
+            24 => format!(
+                "{}\\def{}#1{}{{(#1:m{f})}}",
+                global(rng),
+                mac(rng),
+                rng.pick(&[".", ".", "xyz", "xyz", "x\\relax z", "abcd.", ";;;:", "#2xyzw"])
+            ),
             25..=26 => format!("{}\\let{}={}", global(rng), mac(rng), mac(rng)),
             27 => format!("{}\\let{}=\\relax", global(rng), mac(rng)),
             28 => format!("{}\\let{}=a", global(rng), mac(rng)),
@@ -221,7 +228,9 @@ fn gen_line(rng: &mut Rng, t: &mut Track) -> String {
                 reg(rng),
                 reg(rng)
             ),
+            // the argument text holds a near miss and then every delimiter choice 24 can define
             62 => format!("[{} xy.]", mac(rng)),
+            64..=65 => format!("[{} abxzyc xyz x\\relax z abcd. ;;;: pxyzw .]", mac(rng)),
             _ => "[\\the\\ca \\the\\cb \\the\\catcode`\\Q \\the\\endlinechar \\the\\globaldefs \\the\\ta]".into(),
         };
         return line;
